@@ -114,6 +114,11 @@ def classify(step):
         elif k == "group" and (clauses == ["children-order"] or (not clauses and "prev_first" in asrt)):
             # cpuset-only Group in a topology with offline PUs: placed by cpuset, siblings are ordered by complete_cpuset
             key = "group-by-cpuset-offline-pus-children-order"
+        elif k == "group" and "object-vanished-without-restrict" in hc and replaced_larger_only \
+                and clauses and set(clauses) <= {"complete-cpuset-not-in-parent", "complete-nodeset-not-in-parent"} and "objects=memory" in (step["wf"] or ""):
+            # consequence of the known in-place replacement: the replaced Group had a wider complete set (disallowed PU/node
+            # dropped at load) than the one rebuilt from the children, its memory children keep the wider one
+            key = "group-merge-replaces-object-identity"
         elif zeroed:
             key = "dontmerge-group-replace-returns-zeroed-object"
         elif k == "group" and ck.get("cs", "-") == "-" and ck.get("ccs", "-") != "-" and ("sets-missing" in clauses or asrt == "obj->cpuset"):
@@ -129,6 +134,10 @@ def classify(step):
             # the user's nodeset is kept as given: inconsistent with the given cpuset, or (nodeset only) with the
             # cpuset derived from it when it names a CPU-less node
             key = "group-incompatible-cpuset-nodeset-accepted"
+        elif k == "restrict" and clauses == ["complete-cpuset-not-in-parent"] and "objects=memory" in (step["wf"] or ""):
+            # KEEP_STRUCTURE merging moved memory children from a parent whose complete_cpuset is wider (it names a PU that was
+            # disallowed and dropped at load) to its single child
+            key = "keep-structure-merge-memory-child-wider-complete-cpuset"
         elif k == "allow" and ck.get("flags") == "1" and clauses and all(c.startswith("allowed-") for c in clauses):
             key = "allow-all-copies-complete-sets"
         elif wf_bad:
